@@ -109,6 +109,60 @@ impl Register {
         res
     }
 
+    /// Find the [`IngressId`] registered for the peer described by `query`,
+    /// or register a new one carrying `query`, as one atomic step.
+    ///
+    /// Doing the lookup and the registration in two separate critical
+    /// sections lets two callers that present the same identity at the same
+    /// time both miss and both register, leaving two ids for one peer.
+    pub(crate) fn find_or_register_peer(
+        &self,
+        query: IngressInfo,
+    ) -> IngressId {
+        self.find_or_register(query, Self::peer_matches)
+    }
+
+    /// Like [`Self::find_or_register_peer`], on the BMP router level.
+    pub(crate) fn find_or_register_bmp_router(
+        &self,
+        query: IngressInfo,
+    ) -> IngressId {
+        self.find_or_register(query, Self::bmp_router_matches)
+    }
+
+    fn find_or_register(
+        &self,
+        query: IngressInfo,
+        matches: fn(&IngressInfo, &IngressInfo) -> bool,
+    ) -> IngressId {
+        let mut lock = self.info.write().unwrap();
+        for (id, info) in lock.iter() {
+            if matches(info, &query) {
+                return *id;
+            }
+        }
+        let id = self.register();
+        lock.insert(id, query);
+        id
+    }
+
+    fn peer_matches(info: &IngressInfo, query: &IngressInfo) -> bool {
+        info.parent_ingress.is_some()
+            && info.remote_addr.is_some()
+            && info.remote_asn.is_some()
+            && info.parent_ingress == query.parent_ingress
+            && info.remote_asn == query.remote_asn
+            && info.remote_addr == query.remote_addr
+            && info.rib_type == query.rib_type
+    }
+
+    fn bmp_router_matches(info: &IngressInfo, query: &IngressInfo) -> bool {
+        info.parent_ingress.is_some()
+            && info.remote_addr.is_some()
+            && info.parent_ingress == query.parent_ingress
+            && info.remote_addr == query.remote_addr
+    }
+
     // find_existing methods:
     // cases to cover:
     //  * match MRT update messages (to ingresses from bdumps):
